@@ -12,7 +12,8 @@
 (***************************************************************************)
 EXTENDS AsmCore, Json
 
-CONSTANTS PoolSel,      \* "core": semantic pool; "hyg": text-hygiene pool (quotes, backslashes, \s, hex)
+CONSTANTS CfgSel,       \* which toolchain.yaml: "absent", "empty", "broken", "partial", "crs", "hostile"
+          PoolSel,      \* "core": semantic pool; "hyg": text-hygiene pool (quotes, backslashes, \s, hex)
           MaxLines,     \* maximum number of source lines
           MaxDepth,     \* maximum block nesting
           Export,       \* TRUE: print one JSON case per complete program
@@ -27,9 +28,29 @@ vars == <<prog, ist, rst, meta>>
 
 Names == {"x", "y"}
 
-MCSigma == IF PoolSel = "core" THEN {"a", "b", "\n"} ELSE {"a", "\"", "\\", " "}
+MCSigma == CASE PoolSel = "core" -> {"a", "b", "\n"}
+             [] PoolSel = "hyg"  -> {"a", "\"", "\\", " "}
+             [] PoolSel = "cmd"  -> {"a", "x", ".", " ", "@"}
 MCDev   == {}
-MCCfg   == [unix |-> NoPattern, windows |-> NoPattern]
+\* toolchain.yaml contents: anti-evasion pattern, suffix pattern, no-space suffix pattern per shell
+Lx == Lit("x")
+PStar  == RT("x*", One(Q("star", Lx)))
+POpt   == RT("x?", One(Q("opt", Lx)))
+PSfx   == RT("(?:\\s|$)", One(Grp(<< <<Cls({" "})>>, <<Eol>> >>)))
+PNSfx  == RT("(?:x|$)", One(Grp(<< <<Lx>>, <<Eol>> >>)))
+PAlt   == RT("x|\\.", << <<Lx>>, <<Lit(".")>> >>)          \* hostile: an alternation on the top level
+PAltS  == RT("$|x", << <<Eol>>, <<Lx>> >>)
+MCCfg   == CASE CfgSel \in {"absent", "empty", "broken"} -> [unix |-> NoPattern, windows |-> NoPattern]
+             [] CfgSel = "partial" -> [unix |-> [ev |-> PStar, sfx |-> RTEmpty, nsfx |-> RTEmpty], windows |-> NoPattern]
+             [] CfgSel = "crs"     -> [unix |-> [ev |-> PStar, sfx |-> PSfx, nsfx |-> PNSfx],
+                                       windows |-> [ev |-> POpt, sfx |-> PNSfx, nsfx |-> PSfx]]
+             [] CfgSel = "hostile" -> [unix |-> [ev |-> PAlt, sfx |-> PAltS, nsfx |-> PAlt],
+                                       windows |-> [ev |-> PAltS, sfx |-> PAlt, nsfx |-> PAltS]]
+YamlOf(c) == "patterns:\n  anti_evasion:\n    unix: '" \o c.unix.ev.txt \o "'\n    windows: '" \o c.windows.ev.txt
+             \o "'\n  anti_evasion_suffix:\n    unix: '" \o c.unix.sfx.txt \o "'\n    windows: '" \o c.windows.sfx.txt
+             \o "'\n  anti_evasion_no_space_suffix:\n    unix: '" \o c.unix.nsfx.txt \o "'\n    windows: '" \o c.windows.nsfx.txt \o "'\n"
+ConfigText == CASE CfgSel = "absent" -> "" [] CfgSel = "empty" -> "\n" [] CfgSel = "broken" -> "patterns: [unclosed\n  x: 'y\n"
+                [] OTHER -> YamlOf(MCCfg)
 
 (***************************************************************************)
 (* Entry pools: concrete text + its parse.  (The pairing is re-checked by  *)
@@ -73,12 +94,20 @@ PoolHyg == <<
     RT("^\"",        << <<Bol, Lq>> >>),
     RT("\\\\$",      << <<Lbs, Eol>> >>),
     RT("[\"\\\\]",    One(Cls({"\"", "\\"}))),
-    RT("\\\\|\"",     << <<Lbs>>, <<Lq>> >>)
+    RT("\\\\|\"",     << <<Lbs>>, <<Lq>> >>),
+    \* inline flag groups: outside C01's quantifier (the harness does not compare languages
+    \* for programs that contain them), but C02 demands that none survives in the output
+    RT("(?i)^a.",    << <<Bol, La, Dot>> >>),
+    RT("(?i)a.$",    << <<La, Dot, Eol>> >>)
 >>
 
-Pool == IF PoolSel = "core" THEN PoolCore ELSE PoolHyg
+PoolCmd == << RT("a", One(La)), RT("ax", << <<La, Lx>> >>) >>
+Pool == CASE PoolSel = "core" -> PoolCore [] PoolSel = "hyg" -> PoolHyg [] PoolSel = "cmd" -> PoolCmd
 
-Words == << "a", "ab", "b.a", "ba@", "a b" >>   \* command words for cmdline blocks
+\* command words for cmdline blocks
+Words == IF PoolSel = "cmd"
+         THEN << "a", "aa", "a.a", "a a", "aa@", "a.~", "a\\@", "a\\~", "@a", "a@a", "xa" >>
+         ELSE << "a", "ab", "b.a", "ba@", "a b" >>
 
 PfxPool == << RT("a", One(La)), RT("[ab]", One(Cls({"a", "b"}))) >>
 SfxPool == << RT("b", One(Lb)), RT("a*", One(Q("star", La))) >>
@@ -93,6 +122,7 @@ VocWords   == [j \in 1..Len(Words) |->
 VocMarks   == <<
     [k |-> "start", p |-> "assemble", a |-> "",     txt |-> "##!> assemble"],
     [k |-> "start", p |-> "cmdline",  a |-> "unix", txt |-> "##!> cmdline unix"],
+    [k |-> "start", p |-> "cmdline",  a |-> "windows", txt |-> "##!> cmdline windows"],
     [k |-> "end",    txt |-> "##!<"],
     [k |-> "concat", txt |-> "##!=>"],
     [k |-> "store", n |-> "x", txt |-> "##!=< x"],
@@ -114,9 +144,10 @@ Voc == VocEntries \o VocWords \o VocMarks \o VocGlobal
 FlagSets == SUBSET {"i", "s"}
 LeafTable == [fl \in FlagSets |->
                [i \in 1..(Len(Pool) + Len(Words)) |->
-                  IF Voc[i].w THEN D(RFrag(CmdWordRT(Voc[i].txt, MCCfg.unix).rt.f), fl)
-                  ELSE D(RFrag(Voc[i].rt.f), fl)]]
-MCLeafD(i, fl) == LeafTable[fl][i]
+                  IF Voc[i].w THEN [sh \in {"unix", "windows"} |-> D(CmdWordNode(Voc[i].txt, MCCfg[sh]), fl)]
+                  ELSE [sh \in {"unix", "windows"} |-> D(RFrag(Voc[i].rt.f), fl)]]]
+\* (the table is indexed by the shell of the enclosing cmdline block through RLeafSh)
+MCLeafD(i, fl) == LeafTable[fl][i \div 1000][IF i % 1000 = 1 THEN "unix" ELSE "windows"]
 
 (***************************************************************************)
 (* Well-formedness of extending the program with line l (C01's            *)
@@ -203,7 +234,7 @@ ExportCase == (Export /\ Complete) => PrintT(ToJson(Case))
 
 \* the alphabet, the universe and every pool entry with its language: lets the
 \* harness re-check the pairing of concrete text and fragment
-PoolInfo == [sigma |-> Sigma, n |-> N,
+PoolInfo == [sigma |-> Sigma, n |-> N, config |-> ConfigText, cfgsel |-> CfgSel,
              pool |-> [i \in 1..Len(Pool) |->
                         [txt |-> Pool[i].txt, lang |-> { Str(s) : s \in LangF(Pool[i].f, {}) }]]]
 ASSUME Export => PrintT(ToJson([poolinfo |-> PoolInfo]))
